@@ -14,26 +14,49 @@ def oracles_():
 
 
 MANIFEST = {
-    "text": "Coq theorems (Properties_C06_uord.v): for every pair of duplicate-free user-ordered leaf-lists the operation list "
-            "libyang's two-pass diff produces, applied with libyang's anchor-based insertion, yields the second list "
-            "(userord_moves_correct), *data stays the first sibling, every generated move satisfies first_pos >= second_pos (the "
-            "memmove precondition) and diff(l,l) is empty. Tie: extracted model vs lyd_diff_siblings/lyd_diff_apply_all on the same "
-            "lists (T2, exhaustive for small lists). Tree-level laws (any depth, defaults, case switches, purity, print/parse of "
-            "the diff) are checked by the API oracle on generated tree pairs (search). "
-            "TREE level, everything that is not user-ordered (Properties_C06_difftree.v, closed): C06_diff_self_empty (diff(A,A) empty, "
-            "both options), C06_apply_diff_exact (for all well-formed A,B - leaves, containers, choices/cases, system-ordered lists and "
-            "leaf-lists at any depth - apply(diff(A,B),A) with LYD_DIFF_DEFAULTS succeeds and equals B exactly, default flags of "
-            "non-presence containers included), C06_apply_canon, C06_apply_any_order (the meaning of a diff does not depend on the order "
-            "of its siblings), C06_apply_diff_nodflt_partial (without the defaults option: exact on trees without default nodes). Tie: the extracted model of lyd_diff_siblings/lyd_diff_apply_all gets the dumps of generated triples "
-            "A,B,C and must print the same diff trees (operation explicit or inherited, orig-value, orig-default, default flag, sibling "
-            "order) and the same patched trees as libyang, with and without the defaults option (T2 dtree-C06); the well-formedness "
-            "hypothesis wfb and the law without defaults (explicit nodes of apply(diff(A,B),A) equal those of B) are evaluated on every "
-            "generated case. Node kinds outside the model (oracle difftree-kinds-C06, driver t_c14x, judged on dumps that show the value type and content of anydata / anyxml values, metadata and opaque nodes): trees with anydata / anyxml values of every representation (data tree, XML / JSON / plain string, empty string, no value) changing between A and B in every combination at any depth and inside list instances, metadata on created / deleted / replaced / unchanged nodes, opaque nodes in A and / or B: diff(A,A) empty, apply(diff(A,B),A) = B, the same after printing and parsing the diff (XML, JSON, LYB); what libyang does not carry (metadata, opaque nodes) is computed exactly per case and reported as known findings, everything else must be exact.",
-    "note": "Modelled C: lyd_diff_userord_attrs, the user-ordered part of lyd_diff_siblings_r/lyd_diff_add, lyd_diff_insert, "
-            "lyd_diff_apply_r for one list. Tree level (slice difftree): lyd_diff_siblings_r, lyd_diff_attrs, lyd_diff_find_match, "
-            "lyd_diff_add (operation placement, sibling order incl. the lyds red-black tree of duplicated parents), lyd_diff_apply_r "
-            "with the lyd_np_cont_dflt_set/_del walks, lyd_change_term, lyd_insert_node; user-ordered / duplicate-instance lists, "
-            "anydata, metadata and opaque nodes are outside the tree model (oracle only). Without the defaults option the law is the "
-            "executable check per case (no general proof); re-validation is covered by the API oracle.",
+    "text": "LIST level (Properties_C06_uord.v; model DiffUserOrd of ONE user-ordered leaf-list): for all duplicate-free instance "
+            "lists l1, l2 the operation list of libyang's two-pass diff, applied with the anchor-based insertion, yields l2 in "
+            "content and order (C06_userord_moves_correct) with *data at the first sibling (C06_userord_first_sibling); every "
+            "generated move has second_pos <= first_pos, so the uint32_t memmove length does not wrap (C06_userord_memmove_safe), "
+            "all array indices are in range (C06_userord_trace_safe); diff(l,l) is empty for any list "
+            "(C06_userord_diff_self_empty); Example C06_userord_example. Tie (T2, driver t_uord): extracted model vs "
+            "lyd_diff_siblings / lyd_diff_apply_all on the same lists - leaf-list (udiff, exhaustive for small lists), keyed list "
+            "(kdiff), hand-built diffs with any operation order or missing anchors (uapply). TREE level, everything that is not "
+            "user-ordered (Properties_C06_difftree.v, closed under the global context). Hypothesis wfb (executable, evaluated on "
+            "every generated case): only the modelled kinds - no anydata, no user-ordered or duplicate-instance node, no metadata "
+            "-, inner nodes without value, a non-presence container carries the default flag iff all its children do, keys present "
+            "and leading, children under their schema parent, siblings in canonical order with unique identities. "
+            "C06_diff_self_empty (for every wfb A diff(A,A) = [] with and without LYD_DIFF_DEFAULTS); C06_apply_diff_exact (for "
+            "every schema and wfb A, B - leaves, containers, choices / cases, system-ordered lists and leaf-lists, any depth - diff "
+            "with LYD_DIFF_DEFAULTS succeeds and apply(diff(A,B),A) = B exactly: values, order, default flags incl. those of "
+            "non-presence containers); C06_apply_canon (the result is wfb / canonical again); C06_apply_any_order (every diff whose "
+            "nodes describe the change identity by identity, DiffTreeP.LevelSp / Sp, yields B whatever its sibling order); "
+            "C06_apply_diff_nodflt_partial (WITHOUT LYD_DIFF_DEFAULTS, under the extra hypothesis that A and B hold no default "
+            "node: exact; with default nodes the law - the explicit nodes of the result are those of B - has no proof and is "
+            "evaluated by the model on every generated case); Example C06_example. Tie (T2 dtree-C06, driver lyx): the extracted "
+            "model of lyd_diff_siblings / lyd_diff_apply_all gets the dumps of generated triples (leaves with own and with typedef "
+            "defaults) and must print the same diff trees (operation explicit or inherited, orig-value, orig-default, default flag, "
+            "sibling order) and the same patched trees as libyang, with and without the option. ORACLE level only (implementation "
+            "alone): diff / diff-uord (generated trees incl. user-ordered, state and key-less lists: diff(A,A) empty, apply = B "
+            "exactly with the option and after re-validation without it, inputs untouched, *data first sibling, LYB print / parse "
+            "of the diff), uord-forward, difftree-laws-C06 (dump equality on the T2 triples), difftree-kinds-C06 (driver t_c14x: "
+            "anydata / anyxml values of every representation changing in every combination, metadata on created / deleted / "
+            "replaced / unchanged nodes, opaque nodes; diff(A,A) empty, apply(diff(A,B),A) = B also after printing and parsing the "
+            "diff as XML, JSON, LYB; what libyang does not carry is computed exactly per case), difftree-regress-C06 (regression "
+            "cases of fixed findings). Known findings these oracles attribute (status known): diff-ignores-metadata, "
+            "diff-ignores-opaque, uord-dflt-anchor-nodefaults, uord-empty-anchor, uord-key-both-quotes, dupinst-position, "
+            "dupinst-dflt-flag, dflt-orphan-after-delete. Fixed in libyang, a recurrence is a violation: diff-apply-npcont-dflt "
+            "e962a64, diff-apply-replace-npcont-dflt 2926251, diff-apply-move-dflt f83bc0b, diff-apply-move-already-first a481aab, "
+            "uord-move-nested-dupinst and uord-move-state-subtree 99529e5, uord-diff-first-moved 7390bdf, json-leaflist-meta-order "
+            "85059b4.",
+    "note": "Modelled, not verified: the Coq models are hand transcriptions of the C code, tied to it only by T2 on generated "
+            "inputs. List level: lyd_diff_userord_attrs, the user-ordered part of lyd_diff_siblings_r / lyd_diff_add, "
+            "lyd_diff_insert, lyd_diff_apply_r for one list (values stand for instances; keyed lists and hand-built diffs are T2 "
+            "only). Tree level (slice difftree): lyd_diff_siblings_r, lyd_diff_attrs, lyd_diff_find_match, lyd_diff_add (operation "
+            "placement, sibling order incl. the lyds tree of duplicated parents), lyd_diff_apply_r with the lyd_np_cont_dflt_set / "
+            "_del walks, lyd_change_term, lyd_insert_node, on dumps (node, value bytes, default flag, order). Outside the tree "
+            "model, oracle only: user-ordered and duplicate-instance lists inside trees, anydata / anyxml, metadata, opaque nodes, "
+            "printing / parsing of diffs, re-validation after a diff without the defaults option, several modules. Outside "
+            "everything: diff callbacks, lyd_diff_tree / _module entry points other than the _siblings / _all ones, extension data.",
     "technique": "Coq proof (list-level diff/apply invariant) + differential correspondence + API metamorphic oracle",
 }
